@@ -27,7 +27,11 @@ fn any_page() -> BitPage {
     BitPage { storage, length: popcount(&storage) }
 }
 
-fn member(s: &[u64; 8], v: u32) -> bool {
+pub(crate) fn any_page_with(storage: [u64; 8]) -> BitPage {
+    BitPage { storage, length: popcount(&storage) }
+}
+
+pub(crate) fn member(s: &[u64; 8], v: u32) -> bool {
     let v = v & 511;
     (s[(v / 64) as usize] >> (v % 64)) & 1 == 1
 }
